@@ -169,6 +169,10 @@ def gen_plan(seed: int, tier: str) -> dict:
             "cache_garble": r.randrange(10**9), "ops": None, "points_per_op": 40 if tier == "quick" else 300, "pseed": r.randrange(10**9)}
 
 
+SHORT_PAIRINGS = [{"alias": "z", "db": None, "rec": {"AccessoryPairingID": "00:00:00:00:00:01", "AccessoryLTPK": "00" * 32, "iOSPairingId": "i", "iOSDeviceLTSK": "11" * 32,
+                                                      "iOSDeviceLTPK": "22" * 32, "Connection": "IP", "AccessoryIP": "1.1.1.1", "AccessoryPort": 1}}]
+
+
 def prefixes(n: int, r: random.Random, limit: int) -> list[int]:
     if n <= 400:
         return list(range(0, n + 1))
@@ -376,6 +380,18 @@ def execute(plan: dict, ch: Chooser) -> dict:
             ctx.event("crash", what, i, j, crashed)
             ctx.state("pairing", trace[i][0] if i < len(trace) else "end", crashed, j == 0)
             restart_and_load([snap1, snap2] if crashed else [snap2], "pairing-file save", desc)
+            if crashed and (i * 7 + j) % 4 == 0:
+                # life goes on after the interrupted save: the next process saves a SHORTER document (whatever the crash left
+                # behind - a stale temporary file, a partial write - must not leak into it), restarts and loads it
+                fs.restart()
+                c5 = build(SHORT_PAIRINGS, CharacteristicCacheFile(cache_path))
+                try:
+                    c5.save_data(path)
+                except BaseException as e:  # noqa: BLE001
+                    ctx.violate("save-raises", f"after-interrupted-save/{type(e).__name__}", f"save_data after an interrupted save ({desc}) raised {e!r}")
+                    continue
+                ctx.probe("saves_after_an_interrupted_save")
+                restart_and_load([_snapshot_pairings(c5)], "save after an interrupted save", desc)
         # ---------------- cache file: crash during write-through -------------------------------
         spec = plan["extra"]["db"]
 
